@@ -299,10 +299,173 @@ func c09Raw(c *engine.Ctx, in []byte, args map[string]string) {
 	}
 }
 
+// refHTMLWellFormed tokenizes the unambiguous core of HTML: text without '<', comments, start tags with unquoted,
+// quoted and valueless attributes, void closers and end tags of ordinary elements. ok=false when the input steps
+// outside that core (raw-text and foreign elements, doctype/CDATA/bogus comments, stray '<', '/' or quotes in odd
+// places, NUL) - those are judged by the other clauses. Types, lower-cased names and verbatim values only.
+func refHTMLWellFormed(src []byte) (toks []hTok, ok bool) {
+	isWS := func(c byte) bool { return c == ' ' || c == '\t' || c == '\n' || c == '\f' || c == '\r' }
+	isAlpha := func(c byte) bool { return c >= 'a' && c <= 'z' || c >= 'A' && c <= 'Z' }
+	isAlnum := func(c byte) bool { return isAlpha(c) || c >= '0' && c <= '9' }
+	special := map[string]bool{"script": true, "style": true, "title": true, "textarea": true, "xmp": true, "iframe": true, "plaintext": true, "svg": true, "math": true, "xml": true}
+	i, n := 0, len(src)
+	for i < n {
+		c := src[i]
+		if c == 0 {
+			return nil, false
+		}
+		if c != '<' {
+			j := i
+			for j < n && src[j] != '<' && src[j] != 0 {
+				j++
+			}
+			toks = append(toks, hTok{tt: html.TextToken, text: string(src[i:j])})
+			i = j
+			continue
+		}
+		if bytes.HasPrefix(src[i:], []byte("<!--")) {
+			body := src[i+4:]
+			e := bytes.Index(body, []byte("-->"))
+			if e < 0 || bytes.HasPrefix(body, []byte(">")) || bytes.HasPrefix(body, []byte("->")) || bytes.Contains(body[:e+3], []byte("--!>")) || bytes.Contains(body[:e], []byte("<!--")) {
+				return nil, false
+			}
+			toks = append(toks, hTok{tt: html.CommentToken, text: string(body[:e])})
+			i += 4 + e + 3
+			continue
+		}
+		end := false
+		j := i + 1
+		if j < n && src[j] == '/' {
+			end = true
+			j++
+		}
+		if j >= n || !isAlpha(src[j]) {
+			return nil, false
+		}
+		k := j
+		for k < n && isAlnum(src[k]) {
+			k++
+		}
+		name := string(asciiLower(src[j:k]))
+		if special[name] {
+			return nil, false
+		}
+		if end {
+			for k < n && isWS(src[k]) {
+				k++
+			}
+			if k >= n || src[k] != '>' {
+				return nil, false
+			}
+			toks = append(toks, hTok{tt: html.EndTagToken, text: name})
+			i = k + 1
+			continue
+		}
+		toks = append(toks, hTok{tt: html.StartTagToken, text: name})
+		for {
+			w := k
+			for k < n && isWS(src[k]) {
+				k++
+			}
+			if k < n && src[k] == '>' {
+				toks = append(toks, hTok{tt: html.StartTagCloseToken})
+				k++
+				break
+			}
+			if k+1 < n && src[k] == '/' && src[k+1] == '>' {
+				toks = append(toks, hTok{tt: html.StartTagVoidToken})
+				k += 2
+				break
+			}
+			if k == w || k >= n {
+				return nil, false // attributes need leading whitespace; unterminated tag
+			}
+			a := k
+			for k < n && !isWS(src[k]) && !strings.ContainsRune("/>=\"'<\x00`", rune(src[k])) && src[k] < 0x80 {
+				k++
+			}
+			if k == a {
+				return nil, false
+			}
+			key := string(asciiLower(src[a:k]))
+			e := k
+			for e < n && isWS(src[e]) {
+				e++
+			}
+			if e < n && src[e] == '=' {
+				e++
+				for e < n && isWS(src[e]) {
+					e++
+				}
+				if e >= n {
+					return nil, false
+				}
+				vs := e
+				if q := src[e]; q == '"' || q == '\'' {
+					e++
+					for e < n && src[e] != q && src[e] != 0 {
+						e++
+					}
+					if e >= n || src[e] != q {
+						return nil, false
+					}
+					e++
+					if e < n && !isWS(src[e]) && src[e] != '>' && src[e] != '/' {
+						return nil, false // something glued to the closing quote
+					}
+				} else {
+					for e < n && !isWS(src[e]) && !strings.ContainsRune("/>=\"'<\x00`", rune(src[e])) && src[e] < 0x80 {
+						e++
+					}
+					if e == vs || e < n && src[e] == '/' {
+						return nil, false // empty value; '/' glued to an unquoted value belongs to the value in HTML
+					}
+				}
+				toks = append(toks, hTok{tt: html.AttributeToken, text: key, val: string(src[vs:e])})
+				k = e
+			} else {
+				toks = append(toks, hTok{tt: html.AttributeToken, text: key})
+			}
+		}
+		i = k
+	}
+	return toks, true
+}
+
 // generic invariants on arbitrary bytes (all dialects)
 func c09Any(c *engine.Ctx, in []byte, args map[string]string) {
 	src := append([]byte{}, in...)
-	toks, _, _ := htmlLexAll(src, args["tmpl"])
+	toks, _, lexErr := htmlLexAll(src, args["tmpl"])
+	if args["tmpl"] == "" {
+		if ref, ok := refHTMLWellFormed(src); ok {
+			c.Count("well-formed-core-compared", 1)
+			var h, w []string
+			for _, t := range toks {
+				switch t.tt {
+				case html.TextToken, html.CommentToken, html.EndTagToken, html.StartTagToken:
+					h = append(h, fmt.Sprintf("%s(%q)", t.tt, t.text))
+				case html.AttributeToken:
+					h = append(h, fmt.Sprintf("Attribute(%q=%q)", t.text, t.val))
+				default:
+					h = append(h, t.tt.String())
+				}
+			}
+			for _, t := range ref {
+				switch t.tt {
+				case html.TextToken, html.CommentToken, html.EndTagToken, html.StartTagToken:
+					w = append(w, fmt.Sprintf("%s(%q)", t.tt, t.text))
+				case html.AttributeToken:
+					w = append(w, fmt.Sprintf("Attribute(%q=%q)", t.text, t.val))
+				default:
+					w = append(w, t.tt.String())
+				}
+			}
+			if strings.Join(h, " ") != strings.Join(w, " ") || lexErr != io.EOF {
+				c.Fail("well-formed-core", fmt.Sprintf("document %q of plain text, comments and ordinary tags lexes as\n      %s (err=%v)\n want %s", src, strings.Join(h, " "), lexErr, strings.Join(w, " ")))
+				return
+			}
+		}
+	}
 	inTag := false
 	for _, t := range toks {
 		switch t.tt {
@@ -451,6 +614,18 @@ func c09Work(c *engine.Ctx) {
 		}
 	}
 
+	// tag-level alphabet: every sequence of tag openers, names, separators, values and closers (plain lexer); the
+	// sequences that form plain text, comments and ordinary tags are compared with the well-formed-core reference,
+	// all of them with the structural invariants
+	{
+		tagAl := engine.NewAlphabet(engine.Atoms("<a", "<Br", "</a", " ", "\n", "b", "Cd", "=", "\"x y\"", "'z>'", "v", ">", "/>", "<!--", "-->", "t&amp;", "-"))
+		sp := c.SpaceByName("html-any")
+		c.EnumSeq(tagAl, 0, c.Pick(6, 7), func(in []byte, idx []int) {
+			c.Exec(sp, in, map[string]string{"tmpl": ""})
+			c.Count("exec", 1)
+			c.Count("tag-level-sequences", 1)
+		})
+	}
 	// generic invariants on arbitrary bytes
 	anysp := c.SpaceByName("html-any")
 	for _, pl := range []enumPlan{{alphaHTML, c.Pick(3, 4), nil}, {alphaHTMLCore, c.Pick(4, 5), nil}} {
